@@ -321,6 +321,18 @@ class Model:
                 self._switch(h)
             elif how == 2:
                 self._push(h)
+        elif what == 'replaced':
+            # C++ switch_streams(): the current buffer is deleted with whatever it
+            # still holds; a new buffer on the given source takes its place
+            old = ev.get('old', -1)
+            if old in self.bufs:
+                self.bufs[old].live = False
+                if self.bufs[old].held:
+                    self.stat('switch-streams-discarded-unread-text')
+            h = ev['h']
+            self.bufs[h] = Buf(h, ev.get('src', -1))
+            self._switch(h)
+            self.stat('op-switch-streams')
         elif what == 'create-null':
             pend = self.pending_create
             self.pending_create = None
